@@ -167,7 +167,9 @@ def extract_vars(statement):
 
     variables = [v for v in variables if v[2] != ""]
 
-    return sorted(list(set(variables)), key=lambda var: var[2])
+    # Sort by variable name and then by expression and type so the order of the variables
+    # (and the inspection errors derived from them) does not depend on the hash seed.
+    return sorted(list(set(variables)), key=lambda var: (var[2], var[1], var[0]))
 
 
 def func_has_ctx_arg(func):
